@@ -96,28 +96,29 @@ def wrapper_cases():
             return sentinel
         orig = P._orig_parse
         P._orig_parse = rec
-        had = hasattr(TH.thread_local, "lexer")
-        old = getattr(TH.thread_local, "lexer", None)
+        tl = getattr(TH, "thread_local", None)       # the documented mechanism; C14-O states ownership on behaviour
+        had = tl is not None and hasattr(tl, "lexer")
+        old = getattr(tl, "lexer", None)
         try:
             if had:
-                del TH.thread_local.lexer
+                del tl.lexer
             inp = SymStr(name="input")
             r1 = TH.parse(inp)
-            lx1 = getattr(TH.thread_local, "lexer", None)
             r2 = TH.parse(inp, lexer=P.lexer)
-            lx2 = getattr(TH.thread_local, "lexer", None)
         finally:
             P._orig_parse = orig
-            if had:
-                TH.thread_local.lexer = old
-            elif hasattr(TH.thread_local, "lexer"):
-                del TH.thread_local.lexer
-        ok = (len(calls) == 2 and r1 is sentinel and r2 is sentinel and calls[0]["input"] is inp
-              and calls[0]["lexer"] is lx1 and calls[1]["lexer"] is lx1 and lx2 is lx1
-              and lx1 is not P.lexer and isinstance(lx1, lex.Lexer)
-              and lx1.lexre is P.lexer.lexre and lx1.lexstatere is P.lexer.lexstatere)
-        return [("C04-H/wrapper/thread.parse-uses-one-clone-per-thread-never-the-module-lexer", ok),
-                ("C04-H/wrapper/thread_local-is-threading.local", isinstance(TH.thread_local, threading.local))]
+            if tl is not None:
+                if had:
+                    tl.lexer = old
+                elif hasattr(tl, "lexer"):
+                    del tl.lexer
+        ok = (len(calls) == 2 and r1 is sentinel and r2 is sentinel and calls[0]["input"] is inp and calls[1]["input"] is inp
+              and all(c["lexer"] is not P.lexer and isinstance(c["lexer"], lex.Lexer) and c["lexer"].lexre is P.lexer.lexre
+                      and c["lexer"].lexstatere is P.lexer.lexstatere for c in calls))
+        out = [("C04-H/wrapper/thread.parse-forwards-to-the-same-parser-with-a-clone-of-luqum's-lexer-never-the-module-lexer", ok)]
+        if tl is not None:
+            out.append(("C04-H/wrapper/thread_local-is-threading.local", isinstance(tl, threading.local)))
+        return out
     return [core.Case("C04-H/parser.parse", run_parser_parse, functions=["luqum.parser.parse"]),
             core.Case("C04-H/thread.parse", run_thread_parse, functions=["luqum.thread.parse"])]
 
